@@ -302,3 +302,130 @@ Example C14_signal_examples :
          main_first_point_stmt sigint_handler_body = false /\
   sig_ok signal_sites 1 sigint_handler_body = false.
 Proof. split; [exact main_install_in|]. vm_compute. repeat split; reflexivity. Qed.
+
+(** * The append overloads of HDF5File: all or nothing (strengthening driven by seed F4-J)
+
+    The driver model's [Append a] puts one record into its file; the real `hdf_file->append(..)` is a method with its own
+    control flow.  `translate/h5append2coq.py` turns the body of every method of HDF5File that calls `_appendData` into a block
+    ([gen_body_*], Model/H5Append.v): every call, every `if`, every `return`.  Conditions over the AppendType / bool parameter
+    are evaluated; EVERY other condition - in particular one that reads a member of the object, i.e. something the object
+    remembers from earlier calls - is opaque and gets its value from an arbitrary [h : Z -> bool].
+
+    For the bodies of this run and EVERY [h] (every history of earlier append calls, every content of the arguments), every
+    length [len] of the vector handed to appendRFKicks and every target [t] (the sixteen growing datasets and /RFKicks/data):
+    one call adds exactly one record to each dataset of the overload's family - for append(ps,t,at) with at <> PhaseSpace the
+    family contains the time axis /Info/AxisValues_t - and none to any other; appendRFKicks adds [len] rows to /RFKicks/data.
+    The `_appendData` template itself is a straight line that extends the dataset once and writes once ([appenddata_ok]; that the
+    new extent is the old one plus [size] is C10's statement about Gen_H5Index).  So no sequence of calls can leave the datasets
+    of one family, or a family and the time axis, with different numbers of records.
+    (Seed F4-J: `if (_timeAxisPS.dims[0] > 0 && t == _lastTimePS) return;` inside the phase-space part of append(ps,t,at):
+    the body gets an opaque condition guarding a `return`, under which AppendType::All writes nothing at all - [appends_ok] is
+    false.) *)
+From Inovesa Require Import Base.FieldKit Model.Records Model.H5Append Gen.Gen_H5Append.
+From Inovesa Require Import Proofs.H5AppendP Proofs.H5AppendMainP Proofs.DriverAppendP.
+
+Theorem C14_append_records_all_or_nothing :
+  appends_ok gen_body_ps gen_body_ef gen_body_wake gen_body_tracks gen_body_padded gen_body_rfkicks = true /\
+  appenddata_ok gen_appenddata_shape = true /\
+  (forall (h : Z -> bool) (len : Z) (t : atarget),
+     (forall a : atype, added len t (fst (arun a nopar h gen_body_ps)) = expected (fam_ps a) 0 len t) /\
+     (forall fs : bool, added len t (fst (arun AtAll (fun _ => fs) h gen_body_ef)) = expected (fam_ef fs) 0 len t) /\
+     added len t (fst (arun AtAll nopar h gen_body_wake)) = expected fam_wake 0 len t /\
+     added len t (fst (arun AtAll nopar h gen_body_tracks)) = expected fam_tracks 0 len t /\
+     added len t (fst (arun AtAll nopar h gen_body_padded)) = expected fam_padded 0 len t /\
+     added len t (fst (arun AtAll nopar h gen_body_rfkicks)) = expected [] 1 len t) /\
+  (forall a : atype, a <> AtPhaseSpace -> In DT (fam_ps a)) /\
+  (forall a : atype,
+     fam_ps a = (match a with AtAll | AtPhaseSpace => [DPSAxis; DPSData] | AtDefaults => [] end) ++
+                (match a with AtPhaseSpace => [] | _ => defaults_group end)).
+Proof.
+  exact (conj main_appends_checked (conj main_appenddata_checked
+        (conj (appends_ok_sound _ _ _ _ _ _ main_appends_checked) (conj time_axis_in_family fam_ps_spelled)))).
+Qed.
+Print Assumptions C14_append_records_all_or_nothing.
+
+(** the checker is sound for every body, not only today's: an accepted body has the specified record counts under every
+    valuation of its opaque conditions, hence the same counts under any two (history independence) *)
+Theorem C14_append_checker_sound :
+  forall (a : atype) (p : Z -> bool) (fam : list dset) (rf : Z) (b : ablk), body_ok a p fam rf b = true ->
+    (forall (h : Z -> bool) (len : Z) (t : atarget), added len t (fst (arun a p h b)) = expected fam rf len t) /\
+    (forall (h1 h2 : Z -> bool) (len : Z) (t : atarget),
+       added len t (fst (arun a p h1 b)) = added len t (fst (arun a p h2 b))).
+Proof. exact (fun a p fam rf b H => conj (body_ok_sound a p fam rf b H) (body_ok_history_independent a p fam rf b H)). Qed.
+Print Assumptions C14_append_checker_sound.
+
+(** the tie to the driver model: for every [Append a] statement, the call main() makes ([call_of]: AppendType from the model's
+    [at_all], fullspectrum = true) extends - under every [h] - exactly the datasets the records of the model's [recs] stand for
+    ([kind_fam]: RPS = /PhaseSpace/axis0 + data, RDef = the time axis and the seven profile/moment datasets, RCsr, RWake,
+    RTracks, RPadded; RRF = [length] rows of /RFKicks/data) *)
+Theorem C14_driver_append_is_generated_append :
+  forall (K : Driver.kern) (c : Driver.cfg) (s : Driver.st K) (a : Driver.akind) (h : Z -> bool) (len : Z) (t : atarget),
+    let '(av, pv, body) := call_of K c s a in
+    added len t (fst (arun av pv h body)) =
+    expected (model_fam K c s a) (match a with Driver.ARFKicks => 1 | _ => 0 end) len t.
+Proof. exact driver_append_is_generated_append. Qed.
+Print Assumptions C14_driver_append_is_generated_append.
+
+(** non-vacuity: the bodies of this run have no opaque condition at all; and a body of the kind the checker is there to refuse
+    (seed F4-J: a guard on remembered state that returns from the whole function): refused, and under the valuation "the guard
+    holds" an AppendType::All call adds nothing to the time axis while under "it does not hold" it adds one record *)
+Example C14_append_examples :
+  opaque_of gen_body_ps ++ opaque_of gen_body_ef ++ opaque_of gen_body_wake ++ opaque_of gen_body_tracks ++
+  opaque_of gen_body_padded ++ opaque_of gen_body_rfkicks = [] /\
+  (let guarded :=
+     ACond (COr (CAtIn [AtAll]) (CAtIn [AtPhaseSpace]))
+       (ACond (CAnd (COpq 0) (COpq 1)) ARet ADone (AApp (TDs DPSAxis) (SLit 1) (AApp (TDs DPSData) (SLit 1) ADone)))
+       ADone
+       (ACond (CNot (CAtIn [AtPhaseSpace])) (AApp (TDs DT) (SLit 1) ADone) ADone ADone) in
+   body_ok AtAll nopar [DPSAxis; DPSData; DT] 0 guarded = false /\
+   added 0 (TDs DT) (fst (arun AtAll nopar (fun _ => true) guarded)) = 0 /\
+   added 0 (TDs DT) (fst (arun AtAll nopar (fun _ => false) guarded)) = 1 /\
+   body_ok AtPhaseSpace nopar [DPSAxis; DPSData] 0 guarded = false).
+Proof. vm_compute. repeat split; reflexivity. Qed.
+
+(** * Who reads and writes the interrupt flag (strengthening driven by seed F8-I)
+
+    C14.1 above is about main().  `translate/abortflag2coq.py` lists every place under src/ and inc/ that names `abort`
+    ([abort_sites]; lexical scan, disabled preprocessor branches included).  For the list of this run: the checker accepts it and
+    the references it finds in src/main.cpp are the ones clang sees in main() ([abort_refs]); the flag is READ only in
+    src/main.cpp, by the condition of the simulation loop and by the condition of an `if` after the loop (C14.1: the closing
+    "Aborted."/"Finished."); it is WRITTEN only as `= true`, inside `SIGINT_handler`, inside a catch block of main() (the HDF5
+    error path) or in code of the graphical front end (not compiled here); its definition initialises it with `false`; the loop
+    condition does read it.  Hence no map, field, tracking or file routine can behave differently once the flag is set - the
+    model's kernels do not see it.  (Seed F8-I: `if (Display::abort) break;` in SourceMap::applyToAll is a read at
+    [WElsewhere]: refused.) *)
+From Inovesa Require Import Model.AbortFlag Gen.Gen_AbortFlag Proofs.AbortFlagP Proofs.AbortFlagMainP.
+
+Theorem C14_abort_flag_accesses :
+  abort_ok abort_sites abort_refs = true /\
+  (forall s, In s abort_sites -> a_kind s = KRead ->
+     a_file s = main_file /\ (a_where s = WLoopCond \/ a_where s = WIfCond true)) /\
+  (forall s, In s abort_sites -> is_write (a_kind s) = true ->
+     a_kind s = KWriteTrue /\ (a_where s = WSigHandler \/ a_where s = WCatch \/ gui_only s = true)) /\
+  ((forall s b, In s abort_sites -> a_kind s = KDef b -> b = true) /\ (exists s, In s abort_sites /\ a_kind s = KDef true)) /\
+  (exists s, In s abort_sites /\ a_kind s = KRead /\ a_where s = WLoopCond).
+Proof.
+  exact (conj main_abort_sites_checked
+        (conj (reads_only_in_main _ _ main_abort_sites_checked)
+        (conj (writes_only_set _ _ main_abort_sites_checked)
+        (conj (starts_false _ _ main_abort_sites_checked) (loop_reads_flag _ _ main_abort_sites_checked))))).
+Qed.
+Print Assumptions C14_abort_flag_accesses.
+
+(** the same for every list the checker accepts *)
+Theorem C14_abort_flag_checker_sound :
+  forall (sites : list asite) (refs : list (Z * bool * bool)), abort_ok sites refs = true ->
+    (forall s, In s sites -> a_kind s = KRead -> a_file s = main_file /\ (a_where s = WLoopCond \/ a_where s = WIfCond true)) /\
+    (forall s, In s sites -> is_write (a_kind s) = true ->
+       a_kind s = KWriteTrue /\ (a_where s = WSigHandler \/ a_where s = WCatch \/ gui_only s = true)).
+Proof. exact (fun sites refs H => conj (reads_only_in_main sites refs H) (writes_only_set sites refs H)). Qed.
+Print Assumptions C14_abort_flag_checker_sound.
+
+(** non-vacuity: lists of the kind the checker refuses - a read in SourceMap::applyToAll (seed F8-I), `Display::abort = false`
+    in a library routine, the flag's address handed out, a read in main() before the loop *)
+Example C14_abort_flag_examples :
+  abort_ok (mkasite "src/SM/SourceMap.cpp" 118 KRead WElsewhere [] "if (Display::abort) {" :: abort_sites) abort_refs = false /\
+  abort_ok (mkasite "src/IO/HDF5File.cpp" 400 KWriteOther WElsewhere [] "Display::abort = false;" :: abort_sites) abort_refs = false /\
+  abort_ok (mkasite "src/IO/Display.cpp" 10 KAddr WElsewhere [] "return &Display::abort;" :: abort_sites) abort_refs = false /\
+  abort_ok (mkasite "src/main.cpp" 930 KRead (WIfCond false) [] "if (Display::abort) return 1;" :: abort_sites) abort_refs = false.
+Proof. vm_compute. repeat split; reflexivity. Qed.
